@@ -2,7 +2,7 @@
 # usage: confirm_mut.sh <ID> <k> <pkgdir> <demo run regexp> [existing-tests run regexp]
 # Confirms in the scratch worktree /tmp/wt-<ID>: demo fails with the patch and passes without; package tests pass with the patch.
 ID=$1; K=$2; PKG=$3; RUN=$4; EX=${5:-.}
-WT=/tmp/wt-$ID; M=/tmp/mut-$ID/$K
+SFX=${ROUND:+-r$ROUND}; WT=/tmp/wt-$ID$SFX; M=/tmp/mut-$ID$SFX/$K
 export GOFLAGS=-mod=mod GOPROXY=off
 cd $WT || exit 3
 git checkout -q -- . ; git clean -fdq
